@@ -489,6 +489,14 @@ impl Scenario for C12Threads {
       violation = Some(Violation { rule: "c12.panic".into(), site: site.clone(), detail: format!("thread {} panicked: {}", t, m) });
     } else if order.len() != total + 1 || order[0] != 0 {
       violation = Some(Violation { rule: "c12.stable-subscriber".into(), site: site.clone(), detail: format!("stable subscriber saw {:?}, expected the initial value then all {} items", order, total) });
+    } else if {
+      let mut want: Vec<i64> = case.producers.iter().enumerate().flat_map(|(t, n)| (0..*n).map(move |i| (t as i64 + 1) * 100 + i as i64)).collect();
+      let mut have: Vec<i64> = order[1..].to_vec();
+      want.sort();
+      have.sort();
+      want != have
+    } {
+      violation = Some(Violation { rule: "c12.stable-subscriber".into(), site: site.clone(), detail: format!("a subscriber present all along saw {:?}: not every item passed to next() exactly once", order) });
     } else if peek != *order.last().unwrap() {
       violation = Some(Violation {
         rule: "c12.peek-not-last".into(),
